@@ -45,7 +45,7 @@ DEFAULTS = dict(
     n_links=(1, 6), roots='mixed', stack=(1, 3), kinds='mixed', orthogonal=False,
     body_offsets=True, body_rot=True, anchor_offset=True, limits=0.3, damping=0.5, armature=0.5,
     stiffness=0.3, actuators=(0, 3), geoms=('sphere', 'capsule', 'box'), geom_offsets=True,
-    collide=False, ground=False, gravity=(0.0, 0.0, -9.81), timestep=0.002, max_children=2, topology='random', limit_excl_zero=0.0,
+    collide=False, ground=False, gravity=(0.0, 0.0, -9.81), timestep=0.002, max_children=2, topology='random', limit_excl_zero=0.0, parents=None,
     limit_range=(0.3, 2.5), custom=None, elasticity=False)
 
 
@@ -53,10 +53,14 @@ def gen_model(rng, **opts):
   o = dict(DEFAULTS)
   o.update(opts)
   n = int(rng.integers(o['n_links'][0], o['n_links'][1] + 1))
+  if o['parents'] is not None:
+    n = len(o['parents'])          # explicit forest (parents precede children, document order)
   bodies = []          # dict(name,parent,free,pos,quat,joints,anchor,geoms)
   for i in range(n):
     # parent choice: a forest; roots have parent -1
-    if o['topology'] == 'chain':
+    if o['parents'] is not None:
+      parent = int(o['parents'][i])
+    elif o['topology'] == 'chain':
       parent = i - 1
     elif o['topology'] == 'star':
       parent = -1 if i == 0 else 0
